@@ -221,6 +221,34 @@ theorem version_rule (ver : Option Nat) (es : List Entry) :
       (if (∃ e ∈ es, e.ext ≠ 0) ∧ ver.getD 2 < 3 then 3 else ver.getD 2) := by
   simp only [effectiveVersion, defaultVersion, bumpBelow, bumpTo, List.any_eq_true, decide_eq_true_eq]
 
+/-- **The dictionary that comes back** (closing the gap left by `index_roundtrip_partial`): for a
+Python dictionary (distinct keys) whose keys are shorter than 4096 bytes, the reader's
+dictionary-building loop over the written entries yields exactly the input dictionary *sorted by
+path*, every value replaced by its normal form (`normVal`: entries normalised as in §4 with the
+stage forced by the slot; a `ConflictedIndexEntry` keeps its three slots, missing stages stay
+missing; a conflict with no stage at all contributes nothing and disappears).  In particular no
+`AssertionError("Non-conflicted entry … exists")` can arise from what `write_index_dict` wrote. -/
+theorem dict_roundtrip (d : Dict) (hnd : (keys d).Nodup) (hlen : ∀ k ∈ keys d, k.length < 4096) :
+    foldAdd [] ((flattenDict d).map normEntry) = .ok ((sortDict d).filterMap fun kv => normVal kv.1 kv.2) :=
+  dict_rebuilt d hnd hlen
+
+/-- **Index round trip, dictionary level (partial: under `WFEntry`).**  `Index.write` then
+`Index(path)`: same keys (minus empty conflicts) in git's order, every value in normal form, the
+version of the `write_index` rule, the non-empty extensions — for every hash function with 20-byte
+output, with and without skip-hash. -/
+theorem index_roundtrip_dict_partial (H : Bytes → Bytes) (hH : ∀ x, (H x).length = 20) (skipHash : Bool)
+    (ver : Option Nat) (d : Dict) (xs : List Ext) (hnd : (keys d).Nodup) (hlen : ∀ k ∈ keys d, k.length < 4096)
+    (hv : versions.contains (effectiveVersion ver (flattenDict d)) = true)
+    (hn : (flattenDict d).length < 4294967296)
+    (hes : ∀ e ∈ flattenDict d, WFEntry (effectiveVersion ver (flattenDict d)) e)
+    (hxs : ∀ x ∈ xs, WFExt x) :
+    ∃ file, indexWrite H skipHash ver d xs = .ok file ∧
+      indexRead H file = .ok ((sortDict d).filterMap (fun kv => normVal kv.1 kv.2),
+        effectiveVersion ver (flattenDict d), (xs.filter fun x => !x.2.isEmpty).map fun x => fromRaw x.1 x.2) := by
+  obtain ⟨file, hw, hr⟩ := index_roundtrip_partial H hH skipHash ver d xs hv hn hes hxs
+  refine ⟨file, hw, ?_⟩
+  rw [hr, dict_roundtrip d hnd hlen]
+
 /-- Non-vacuity of §5: a three-way conflict with a missing stage next to a plain entry with
 skip-worktree, version requested 2 (written as 3), one unknown and one TREE extension. -/
 def exDict : Dict :=
@@ -232,6 +260,10 @@ example : effectiveVersion (some 2) (flattenDict exDict) = 3 ∧
     (∀ e ∈ flattenDict exDict, WFEntry 3 e) ∧
     (flattenDict exDict).map (fun e => (e.name, entryStage e)) = [([97, 47, 120], 1), ([97, 47, 120], 3), ([98], 0)] ∧
     WFExt ([65, 66, 67, 68], [1, 2, 3]) := by decide +kernel
+
+example : (keys exDict).Nodup ∧ (∀ k ∈ keys exDict, k.length < 4096) ∧
+    ((sortDict exDict).filterMap fun kv => normVal kv.1 kv.2).map (·.1) = [[97, 47, 120], [98]] := by
+  decide +kernel
 
 /-! ## 6. Order: path bytes, then stage -/
 
@@ -248,16 +280,14 @@ theorem sort_is_permutation (d : Dict) : (sortDict d).Perm d :=
 /-- Within one path the stages are written in increasing order 1, 2, 3 (present ones only), each
 serialised entry carries the dictionary key as its name and exactly its stage — whatever stage bits
 the caller left in `flags` — and a plain entry is written with stage 0. -/
-theorem stages_in_order (k : Bytes) (a t o : Option Entry)
-    (ha : ∀ e, a = some e → e.flags < 65536) (ht : ∀ e, t = some e → e.flags < 65536)
-    (ho : ∀ e, o = some e → e.flags < 65536) :
+theorem stages_in_order (k : Bytes) (a t o : Option Entry) :
     (flattenVal k (.conflict a t o)).map (fun x => (x.name, entryStage x)) =
       (a.map fun _ => (k, 1)).toList ++ (t.map fun _ => (k, 2)).toList ++ (o.map fun _ => (k, 3)).toList :=
-  flattenVal_conflict_stages k a t o ha ht ho
+  flattenVal_conflict_stages k a t o
 
-theorem plain_entry_stage_zero (k : Bytes) (e : Entry) (hf : e.flags < 65536) :
+theorem plain_entry_stage_zero (k : Bytes) (e : Entry) :
     (flattenVal k (.normal e)).map (fun x => (x.name, entryStage x)) = [(k, 0)] :=
-  flattenVal_normal_stage k e hf
+  flattenVal_normal_stage k e
 
 /-- `bytes.__lt__` as modelled is git's `cache_name_compare` order — memcmp on the common length,
 then the shorter name first: it is a strict total order (asymmetric, transitive, trichotomous) in
